@@ -461,6 +461,24 @@ def _get_timepoint_simulated_effects(
     return sim_eff
 
 
+def _get_duration_conditions(action: DurativeAction, duration: Fraction) -> List[FNode]:
+    """
+    Returns the conditions stating that the given duration respects the bounds of
+    the action's duration that are not constants; such bounds are evaluated when
+    the action starts, so the event at the start of the action depends on them.
+    """
+    em = action.environment.expression_manager
+    interval = action.duration
+    duration_conditions: List[FNode] = []
+    if not interval.lower.is_constant():
+        lower_cmp = em.LT if interval.is_left_open() else em.LE
+        duration_conditions.append(lower_cmp(interval.lower, em.Real(duration)))
+    if not interval.upper.is_constant():
+        upper_cmp = em.LT if interval.is_right_open() else em.LE
+        duration_conditions.append(upper_cmp(em.Real(duration), interval.upper))
+    return duration_conditions
+
+
 def _extract_action_timings(
     action: DurativeAction,
     start: Fraction,
@@ -472,11 +490,16 @@ def _extract_action_timings(
     - a condition start/ends
     - an effect takes place
     - a simulated effects takes place
+    - the duration bounds are evaluated (the start, if they are not constants)
     """
     timings: Set[Fraction] = set()
 
     absolute_time = lambda timing: _absolute_time(timing, start, duration)
     timings.update(map(absolute_time, chain(action.effects, action.simulated_effects)))
+
+    if _get_duration_conditions(action, duration):
+        # the bounds of the duration are evaluated when the action starts
+        timings.add(start)
 
     for interval in action.conditions.keys():
         lower_increment: Fraction = epsilon if interval.is_left_open() else Fraction(0)
@@ -508,6 +531,9 @@ def _extract_instantenous_actions(
         )
         for cond in _get_timepoint_conditions(action, timing, start, duration):
             inst_action.add_precondition(cond)
+        if timing == start:
+            for cond in _get_duration_conditions(action, duration):
+                inst_action.add_precondition(cond)
         for eff in _get_timepoint_effects(action, timing, start, duration):
             inst_action._add_effect_instance(eff)
         sim_eff = _get_timepoint_simulated_effects(action, timing, start, duration)
